@@ -113,6 +113,13 @@ def check(case, ctx, rep, pytrs):
             elif channel == 'master':
                 MC.default_ns, MC.default_ew = dns, dew
                 d = pytrs.PLSSDesc(txt)
+            elif channel == 'mixed':
+                # one axis from the config string, the other as keyword
+                d = pytrs.PLSSDesc(txt, config=dns, wait_to_parse=True)
+                d.parse(default_ew=dew)
+            elif channel == 'mixed2':
+                d = pytrs.PLSSDesc(txt, config=dew, wait_to_parse=True)
+                d.parse(default_ns=dns)
             else:
                 # config says the opposite; keyword must win
                 odn = 's' if dns == 'n' else 'n'
@@ -203,6 +210,15 @@ def check_ocr(rng, ctx, rep, pytrs):
     ctx.case(txt, True, shape='ocr', sample={'text': txt})
     ctx.hit('ocr')
     with ctx.guard(case):
+        want = f"T{t}{ns.upper()}-R{r}{ew.upper()}"
+        # the plain search first, then the OCR one on the same text (a result
+        # remembered from the first call must not come back)
+        pytrs.find_twprge(txt, preprocess=True)
+        ft = pytrs.find_twprge(txt, ocr_scrub=True)
+        if ft != [want]:
+            ctx.violation('ocr_scrub-find_twprge', case,
+                          f"find_twprge({txt!r}, ocr_scrub=True) == {ft}, "
+                          f"expected [{want!r}]")
         d = pytrs.PLSSDesc(txt, config='ocr_scrub')
         got = [x.trs for x in d.tracts]
         exp = [f"{t}{ns}{r}{ew}14"]
@@ -328,7 +344,8 @@ def gen_case(rng):
     return {'t': t, 'ns': ns, 'r': r, 'ew': ew, 'drop_ns': dn, 'drop_ew': de,
             'default_ns': rng.choice('ns'), 'default_ew': rng.choice('ew'),
             'form': name, 'channel': rng.choice(['config', 'keyword', 'master',
-                                                 'keyword-over-config']),
+                                                 'keyword-over-config',
+                                                 'mixed', 'mixed2']),
             'text': txt, 'hostile': hostile}
 
 
